@@ -31,13 +31,13 @@ const (
 
 // Paren variants: how the line continues after "(".
 const (
-	ParenIndent        = iota // "(\n" + blank, rest on one line, " )"
-	ParenComment              // "( ; c\n" + blank, rest on one line, " )"
-	ParenCol0                 // "(\n", continuation starts in column 0
-	ParenEachIndent           // a line break after every remaining token, continuation lines indented
-	ParenEachCol0             // a line break after every remaining token, continuation lines in column 0
-	ParenCloseOwnLine         // "(\n" + blank ... "\n)" closing parenthesis on its own line
-	ParenEachComment          // a comment and a line break after every remaining token, indented
+	ParenIndent       = iota // "(\n" + blank, rest on one line, " )"
+	ParenComment             // "( ; c\n" + blank, rest on one line, " )"
+	ParenCol0                // "(\n", continuation starts in column 0
+	ParenEachIndent          // a line break after every remaining token, continuation lines indented
+	ParenEachCol0            // a line break after every remaining token, continuation lines in column 0
+	ParenCloseOwnLine        // "(\n" + blank ... "\n)" closing parenthesis on its own line
+	ParenEachComment         // a comment and a line break after every remaining token, indented
 	NParenVariants
 )
 
